@@ -9,6 +9,7 @@ import LZ4V.Judge.Sparse
 import LZ4V.Judge.FastR
 import LZ4V.Judge.FrameDS
 import LZ4V.Judge.FileR
+import LZ4V.Judge.FastS
 import Std.Data.HashMap
 /-!
 `lz4vmodel judge <casefile> <faildir>` : walk the case records written by a harness, run the specification / model
@@ -32,6 +33,7 @@ def dispatch (blobs : Std.HashMap Nat ByteArray) (r : Rec) : Verdict :=
   | 11 => (let x := judgeFastResetHistory r; { fails := x.1, tags := x.2 })
   | 12 => (let x := judgeFrameTrace blobs r; { fails := x.1, tags := x.2 })
   | 14 => (let x := judgeReadSession r; { fails := x.1, tags := x.2 })
+  | 15 => (let x := judgeContigStream r; { fails := x.1, tags := x.2 })
   | 100 => {}
   | _ => { fails := [("unknown_op", s!"op={r.op}")] }
 
